@@ -33,7 +33,9 @@ PROP = {'drive': ['Shape'],
          '4.1, GPOS 1.2 2.1 3.1 4.1 (mark, base) 6.1 (mark1, mark2), contexts 1/2 and chained 1/2, read from bytes '
          'and applied to all ordered pairs of the covered glyphs, last covered first (128), over-budget rules (63..130 actions, self-referential) whose nested GSUB 2.1 '
          'insertions produce glyphs that start the same match again, run last (10; a non-terminating engine shows '
-         'as the time-out outcome on D shape.text)',
+         'as the time-out outcome on D shape.text), sfnt.Layouter.Layout on CFF and glyf fonts (internal/debug maker) '
+         'whose cmap or a GSUB 1.1 substitution delivers glyph IDs 1, NumGlyphs/2, NumGlyphs-1, NumGlyphs, +1, +2, '
+         '0xFFFF (28; D shape.layout: no panic, text kept, advance = width inside the font and 0 beyond it)',
  'partial': ['C07_no_panic is proved in full for every lookup list in the shape the reader delivers, and that shape is '
              'proved for the images of the modelled subtable readers (C07_reader_delivers_shape, C07_no_panic_reader) '
              '(readerShapedLL = coverage indices inside the indexed arrays, context format 3 and chained context '
